@@ -441,4 +441,8 @@ func monC11(c *drv.Ctx) {
 		}
 		cs.Count(true, "nil", cs.Idx)
 	})
+	// (7) the same structs through FastWriteNocopy with a direct writer attached: the advertised length is still
+	// what is produced (linear part + directly written pieces), and the spliced stream reads back as the value
+	c.Stage("nocopy-writer-structs", c.Pick(8000, 100000), false, c15StructCase)
+	c.Stage("nocopy-writer-exception", c.Pick(1500, 20000), false, c15ExceptionCase)
 }
